@@ -2,6 +2,7 @@ import SfVerif.Lemmas.Ring2
 import SfVerif.Gen.Consts
 import SfVerif.Lemmas.GenFnsLogs
 import SfVerif.Lemmas.Frame2
+import SfVerif.Lemmas.Frame4
 import SfVerif.Gen.WasmFinalize
 /-! C05 — the host reads back the most recent log bytes, in order, at any moment. -/
 namespace SfVerif.Props.C05
@@ -115,6 +116,38 @@ theorem C05_every_history (w : Nat) (ops : List Op) (hs : ∀ op ∈ ops, op.spl
 /-- non-vacuity: a read between two log calls, a new invocation, one more log call -/
 example : msgsSince [] [.log 3 1, .root, .log 2 5, .init #[0xc0], .log 1 9] = [(msgBytes 1 9).toList] := by
   rfl
+
+/-- **request then copy is one log call**: from any thread state whatever, the provider's
+    plan request for an `n`-byte message followed by the copy of that message along the plan
+    (what the native glue and the trampoline do) leaves exactly the state of the one-call form -/
+theorem C05_split_call_is_one_call (w : Nat) (t : Thread) (n seed : Nat) :
+    (((t.step w (.logreq n)).1).step w (.logcopy n seed)).1 = (t.step w (.log n seed)).1 :=
+  Thread.split_pair_state w t n seed
+
+/-- **C05 at the level of a whole thread, log calls in either form**: the same statement as
+    `C05_every_history` for histories in which a log call may also arrive split in two (plan
+    request, then the copy of a message of the requested length), in any mixture with one-call
+    logs and every other protocol operation. `fuseLogs` only renames each adjacent
+    request/copy pair to the one call it is. What stays outside: a plan request whose copy never
+    comes or comes later (a trap between the two halves; a stale plan) — there the reserved
+    bytes are not yet the message's, on the real ring as in the model; plans themselves are
+    `C05_plan_sound`, the interleaving across threads is C14. -/
+theorem C05_every_history_either_form (w : Nat) (ops : List Op)
+    (hs : ∀ op ∈ fuseLogs ops, op.splitLog = false) :
+    Logs.read LOG_CAPACITY (Thread.run w {} ops).1.ctx.logs =
+      lastN LOG_CAPACITY (msgsSince [] (fuseLogs ops)).flatten := by
+  rw [← Thread.run_fuse]
+  exact C05_every_history w _ hs
+
+/-- non-vacuity: a split call, a read, a one-call log, a new invocation, another split call -/
+example : (∀ op ∈ fuseLogs [.logreq 3, .logcopy 3 1, .root, .log 2 5, .init #[0xc0], .logreq 1, .logcopy 1 9],
+      op.splitLog = false) ∧
+    msgsSince [] (fuseLogs [.logreq 3, .logcopy 3 1, .root, .log 2 5, .init #[0xc0], .logreq 1, .logcopy 1 9]) =
+      [(msgBytes 1 9).toList] := by
+  refine ⟨?_, rfl⟩
+  intro op h
+  simp [fuseLogs] at h
+  rcases h with h | h | h | h | h <;> subst h <;> rfl
 
 /-- the wasm-only `finalize` export (not compiled natively; regenerated from provider/src/lib.rs) hands
     the host six words: the last four are the ring's read pointers in the order `read_ptrs` returns them — the two segments `C05_read_is_tail` speaks about -/
